@@ -48,8 +48,17 @@ package lock
 //@        !emits HeaderSet(_, _, _) && !emits WriteHeader(_, _) && !emits Write(_, _) && !emits HTTPRedirect(_, _, _))
 //@
 //@ func (*Lock).BeforeAuth
-//@   property C03
-//@   ensures veto_locked: (result.0 == false && result.1 == nil) ==>
+//@   property C03 C16
+//@   -- C16(a): the registered handler is a plain wrapper: for an account locked throughout the
+//@   -- request it answers with the one fixed redirect of updateLockedState, nothing else
+//@   ensures[C16] locked_same: (!panics && (emits Store.Save(?s) -> ?e :: e == nil && (each Now() -> ?t => old(Locked(s)) > t && Locked(s) > t))) ==>
+//@       (result.0 == true &&
+//@        (emits Redirect(?ro) -> ?re :: result.1 == re && ro.Code == 307 && ro.RedirectPath == l.Config.Paths.LockNotOK &&
+//@            ro.Failure == loc(l.Authboss, TxtLocked) && ro.Success == "" && ro.FollowRedirParam == false &&
+//@            !(before Redirect(_)) && !(after Redirect(_))) &&
+//@        !emits Respond(_, _, _) && !emits Sess.Put(_, _) && !emits Sess.Del(_) && !emits Cook.Put(_, _) && !emits Cook.Del(_) &&
+//@        !emits HeaderSet(_, _, _) && !emits WriteHeader(_, _) && !emits Write(_, _) && !emits HTTPRedirect(_, _, _))
+//@   ensures[C03] veto_locked: (result.0 == false && result.1 == nil) ==>
 //@       emits Store.Save(?s) -> _ :: emits Now() -> ?t :: final(Locked(s)) <= t && each Now() -> ?t2 => t2 <= t
 //@
 //@ func (*Lock).AfterAuthSuccess
@@ -59,9 +68,23 @@ package lock
 //@   ensures success_saves: (result.1 == nil) ==> emits Store.Save(_) -> ?e :: e == nil
 //@
 //@ func (*Lock).AfterAuthFail
-//@   property C04
+//@   property C04 C16
 //@   requires l.Modules.LockAfter >= 1 && l.Modules.LockWindow >= 0 && l.Modules.LockDuration >= 0
-//@   ensures failure_counts: each Store.Save(?s) -> _ =>
+//@   -- C16(a): the registered handler is a plain wrapper: for an account locked throughout the
+//@   -- request it answers with the one fixed redirect of updateLockedState, nothing else
+//@   ensures[C16] locked_same: (!panics && (emits Store.Save(?s) -> ?e :: e == nil && (each Now() -> ?t => old(Locked(s)) > t && Locked(s) > t))) ==>
+//@       (result.0 == true &&
+//@        (emits Redirect(?ro) -> ?re :: result.1 == re && ro.Code == 307 && ro.RedirectPath == l.Config.Paths.LockNotOK &&
+//@            ro.Failure == loc(l.Authboss, TxtLocked) && ro.Success == "" && ro.FollowRedirParam == false &&
+//@            !(before Redirect(_)) && !(after Redirect(_))) &&
+//@        !emits Respond(_, _, _) && !emits Sess.Put(_, _) && !emits Sess.Del(_) && !emits Cook.Put(_, _) && !emits Cook.Del(_) &&
+//@        !emits HeaderSet(_, _, _) && !emits WriteHeader(_, _) && !emits Write(_, _) && !emits HTTPRedirect(_, _, _))
+//@   -- C16(c): a failure that does not lock the account (and was not locked) adds nothing
+//@   -- a client could observe
+//@   ensures[C16] unlocked_failure_silent: (!panics && (emits Store.Save(?s) -> ?e :: e == nil && (each Now() -> ?t => Locked(s) <= t))) ==>
+//@       (result.0 == false && result.1 == nil && !emits Redirect(_) && !emits Respond(_, _, _) && !emits Sess.Put(_, _) && !emits Sess.Del(_) &&
+//@        !emits Cook.Put(_, _) && !emits Cook.Del(_) && !emits HeaderSet(_, _, _) && !emits WriteHeader(_, _) && !emits Write(_, _) && !emits HTTPRedirect(_, _, _))
+//@   ensures[C04] failure_counts: each Store.Save(?s) -> _ =>
 //@       (emits Now() -> ?nw :: AttemptCount(s) == step_count(old(AttemptCount(s)), old(LastAttempt(s)), nw, l.Modules.LockWindow))
 //@
 //@ func (*Lock).Unlock
